@@ -21,6 +21,7 @@ pub mod c15;
 pub mod c16;
 pub mod c18;
 pub mod replay;
+pub mod sib;
 
 pub struct StageOut {
     pub property: String,
@@ -56,6 +57,7 @@ pub fn dispatch(ctx: &Ctx) -> StageOut {
         "c16" => c16::run(ctx),
         "c18" => c18::run(ctx),
         "advgen" => c18::run_advgen(ctx),
+        "sibsearch" => sib::run(ctx),
         "rareseeds" => common::rareseeds_stage(ctx),
         "bench" => common::bench_stage(ctx),
         "replay" => replay::run(ctx),
